@@ -399,14 +399,26 @@ pub fn run_c18(ctx: &Ctx, sink: &mut Sink) {
             std::fs::create_dir(sc.dir.join(d)).unwrap();
             std::fs::write(sc.dir.join(d).join(f), b"z").unwrap();
         }
+        // a name that is not valid UTF-8 (a Latin-1 name): it cannot be an operand of the in-process runs
+        {
+            use std::os::unix::ffi::OsStrExt;
+            let d = sc.dir.join(std::ffi::OsStr::from_bytes(b"caf\xe9"));
+            std::fs::create_dir(&d).unwrap();
+            std::fs::write(d.join("m"), b"m").unwrap();
+        }
         // observe again: links to ".." see the directories just created
         let mut map: Vec<(Vec<u8>, String)> = sc.roots.iter().map(|(nm, _)| (nm.clone(), observe_root(nm, &sc.dir.join(std::ffi::OsStr::new(std::str::from_utf8(nm).unwrap()))))).collect();
         for extra in ["-dash", "nl\nname", " sp", ".", "r0/../r1", "-", "(old)", "!keep", ",", "\n", " ", "\t "] {
             map.push((extra.as_bytes().to_vec(), observe_root(extra.as_bytes(), &sc.dir.join(extra))));
         }
+        {
+            use std::os::unix::ffi::OsStrExt;
+            let nm = b"caf\xe9".to_vec();
+            map.push((nm.clone(), observe_root(&nm, &sc.dir.join(std::ffi::OsStr::from_bytes(&nm)))));
+        }
         let wm: Vec<String> = map.iter().map(|(_, w)| w.clone()).collect();
         let wm = wm.join(";");
-        let operand_ok = |n: &[u8]| n == b"-" || (!n.starts_with(b"-") && n != b"!" && n != b"(");
+        let operand_ok = |n: &[u8]| std::str::from_utf8(n).is_ok() && (n == b"-" || (!n.starts_with(b"-") && n != b"!" && n != b"("));
         for ci in 0..(if ctx.thorough { 16 } else { 10 }) {
             let mut toks: Vec<String> = vec![];
             if rng.chance(1, 3) {
@@ -470,6 +482,7 @@ pub fn run_c18(ctx: &Ctx, sink: &mut Sink) {
                     let (nm, _) = &map[rng.below(map.len())];
                     content.extend_from_slice(nm);
                     if nm.starts_with(b"-") || nm.contains(&b'\n') { tags.push("non-operand-name"); }
+                    if std::str::from_utf8(nm).is_err() { tags.push("non-utf8-name"); }
                     if i + 1 < n || rng.chance(2, 3) {
                         content.push(0);
                     } else {
